@@ -192,8 +192,35 @@ func enumPaths(f *ssa.Function, limit int) (paths []Path, ok bool) {
 	ok = true
 	onStack := map[*ssa.BasicBlock]bool{}
 	var cur Path
-	var walk func(b *ssa.BasicBlock)
-	walk = func(b *ssa.BasicBlock) {
+	// env: boolean values known on the current path (branch decisions taken, φs of booleans whose incoming
+	// value is known, negations); a branch whose condition is known is followed on that side only
+	var val func(env map[ssa.Value]bool, v ssa.Value, d int) (bool, bool)
+	val = func(env map[ssa.Value]bool, v ssa.Value, d int) (bool, bool) {
+		if d > 6 {
+			return false, false
+		}
+		if b, known := env[v]; known {
+			return b, true
+		}
+		switch x := v.(type) {
+		case *ssa.Const:
+			if x.Value != nil && (x.Value.String() == "true" || x.Value.String() == "false") {
+				return x.Value.String() == "true", true
+			}
+		case *ssa.UnOp:
+			if x.Op.String() == "!" {
+				if b, known := val(env, x.X, d+1); known {
+					return !b, true
+				}
+			}
+		}
+		return false, false
+	}
+	// src: for the boolean φs met on the current path, the value that came in (so that a branch on the φ
+	// is also a decision about that value: `bad := a || b; if !bad` decides b on the path through b)
+	src := map[ssa.Value]ssa.Value{}
+	var walk func(b, prev *ssa.BasicBlock, env map[ssa.Value]bool)
+	walk = func(b, prev *ssa.BasicBlock, env map[ssa.Value]bool) {
 		if !ok {
 			return
 		}
@@ -207,6 +234,32 @@ func enumPaths(f *ssa.Function, limit int) (paths []Path, ok bool) {
 			onStack[b] = false
 			cur.Blocks = cur.Blocks[:len(cur.Blocks)-1]
 		}()
+		// boolean φs whose incoming value on this edge is known
+		if prev != nil {
+			pi := -1
+			for i, p := range b.Preds {
+				if p == prev {
+					pi = i
+				}
+			}
+			for _, in := range b.Instrs {
+				phi, isPhi := in.(*ssa.Phi)
+				if !isPhi {
+					break
+				}
+				if pi >= 0 && pi < len(phi.Edges) {
+					if bv, known := val(env, phi.Edges[pi], 0); known {
+						env = withVal(env, phi, bv)
+					}
+					if old, had := src[phi]; had {
+						defer func(p *ssa.Phi, o ssa.Value) { src[p] = o }(phi, old)
+					} else {
+						defer func(p *ssa.Phi) { delete(src, p) }(phi)
+					}
+					src[phi] = phi.Edges[pi]
+				}
+			}
+		}
 		last := b.Instrs[len(b.Instrs)-1]
 		switch t := last.(type) {
 		case *ssa.Return:
@@ -216,23 +269,57 @@ func enumPaths(f *ssa.Function, limit int) (paths []Path, ok bool) {
 				ok = false
 			}
 		case *ssa.If:
+			known, kv := false, false
+			if bv, k := val(env, t.Cond, 0); k {
+				known, kv = true, bv
+			}
 			for i, s := range b.Succs {
+				if known && kv != (i == 0) {
+					continue // contradicts what the path already knows
+				}
+				nDec := len(cur.Decisions)
 				cur.Decisions = append(cur.Decisions, Guard{Cond: t.Cond, Val: i == 0, At: t})
-				walk(s)
-				cur.Decisions = cur.Decisions[:len(cur.Decisions)-1]
+				e2 := withVal(env, t.Cond, i == 0)
+				// what the branch says about the values the condition was made of
+				cv, bv := t.Cond, i == 0
+				for hop := 0; hop < 6; hop++ {
+					if u, isU := cv.(*ssa.UnOp); isU && u.Op.String() == "!" {
+						cv, bv = u.X, !bv
+					} else if in, had := src[cv]; had {
+						if _, isConst := in.(*ssa.Const); isConst {
+							break
+						}
+						cv = in
+					} else {
+						break
+					}
+					e2 = withVal(e2, cv, bv)
+					cur.Decisions = append(cur.Decisions, Guard{Cond: cv, Val: bv, At: t})
+				}
+				walk(s, b, e2)
+				cur.Decisions = cur.Decisions[:nDec]
 			}
 		case *ssa.Panic:
 			// path ends without a return: ignored
 		default:
 			for _, s := range b.Succs {
-				walk(s)
+				walk(s, b, env)
 			}
 		}
 	}
 	if len(f.Blocks) > 0 {
-		walk(f.Blocks[0])
+		walk(f.Blocks[0], nil, map[ssa.Value]bool{})
 	}
 	return paths, ok
+}
+
+func withVal(env map[ssa.Value]bool, v ssa.Value, b bool) map[ssa.Value]bool {
+	out := make(map[ssa.Value]bool, len(env)+1)
+	for k, x := range env {
+		out[k] = x
+	}
+	out[v] = b
+	return out
 }
 
 // phiOnPath resolves a value on a path: phis are replaced by the incoming
